@@ -61,7 +61,8 @@ LineTokens(f, fno, i) ==
       [] f.fmt = "idx_bc" -> << <<"i", IdxOf(f.fmt, fno, i)>>, <<"b", f.bcs[i]>> >>
 LooksLikeBarcode(tok) == tok[1] = "b"
 
-InjSeqs(S, n) == UNION { { s \in [1 .. m -> S] : \A i, j \in 1 .. m : s[i] = s[j] => i = j } : m \in 1 .. n }
+\* m = 0: an empty whitelist file (everything is unassigned)
+InjSeqs(S, n) == UNION { { s \in [1 .. m -> S] : \A i, j \in 1 .. m : s[i] = s[j] => i = j } : m \in 0 .. n }
 
 VARIABLES files,    \* the barcode directory: sequence of files mapping to the one alias (glob order)
           k, lazy,  \* constructor arguments
